@@ -183,6 +183,32 @@ func c08Secret(t *rapid.T) ([]byte, string) {
 	return gen.Bytes32(t, "secret")
 }
 
+var c08RawBase = sm2ref.Mul(big.NewInt(0x1234567), sm2ref.G)
+
+// c08RawPoint builds the fixed point [0x1234567]G with RAW coordinate limbs (x*Z, y*Z, Z) mod p for Z = secret mod p (1 if that is
+// zero), through the exported table-selection routine (the only exported way to set raw limbs).
+func c08RawPoint(secret []byte) *internal.SM2Point {
+	z := new(big.Int).SetBytes(secret)
+	z.Mod(z, gen.P)
+	if z.Sign() == 0 {
+		z.SetInt64(1)
+	}
+	limbs := func(v *big.Int) *[4]uint64 {
+		var l [4]uint64
+		w := new(big.Int).Set(v)
+		m := new(big.Int).SetUint64(^uint64(0))
+		for i := 0; i < 4; i++ {
+			l[i] = new(big.Int).And(w, m).Uint64()
+			w.Rsh(w, 64)
+		}
+		return &l
+	}
+	x := new(big.Int).Mul(c08RawBase.X, z)
+	y := new(big.Int).Mul(c08RawBase.Y, z)
+	tab := [][]*[4]uint64{{limbs(x.Mod(x, gen.P))}, {limbs(y.Mod(y, gen.P))}, {limbs(z)}}
+	return internal.NewSM2Point().MultiSelectXYZ(&tab, 1, 1)
+}
+
 // c08Stretch turns the 32-byte secret into an n-byte one with the same shape (leading 00/FF runs stay leading runs).
 func c08Stretch(secret []byte, n int) []byte {
 	if n <= 32 {
@@ -193,7 +219,7 @@ func c08Stretch(secret []byte, n int) []byte {
 
 func TestVerif_C08_Primitives(t *testing.T) {
 	rec := stats.Get("C08", "primitives")
-	rec.Rule("instrumented build (ctinstr: block, short-circuit and index events in utils, sm2, sm2/internal, fiat). rapid draws a primitive and a 32-byte secret from {uniform; 0,1,n-2..n+1, p, 2^255, 2^256-1; 1..31 leading 00 bytes; 1..31 leading FF bytes; bit runs; one bit; extreme bytes; exactly one comb window set}: P1 ScalarBaseMult(k); P2 ScalarMult(P,k) for fixed public P in {G,[m]G}, also with 16-, 33-, 40- and 64-byte scalars of the same shapes (length is public, value is not); P3 field and scalar Invert(x); P4 MultiSelectXY/XYZ, fiat MultiSelect, Select (secret = selector); P5 TestPrivateKey(d), ConstantTimeCmp(a,b,32) (secret = both); P6 Bytes()/GetAffineX() of [k]G in a secret projective representative; P7 (1+d)^-1 as the signer computes it (scalar SetBytes + Invert). Oracle: executions are grouped by (primitive, public parameters, verdict); every execution's block-sequence hash+count, (site,index)-sequence hash+count and executed external-callee set must equal the group's first one; and the callee set of a primitive contains no math/big arithmetic, no bytes/strings call, no string/array comparison. On mismatch both secrets are re-run with full logs and the first diverging event is reported with file:line. Non-trivial: a secret that is not plain uniform compared against a different secret; distinct by (primitive, secret).")
+	rec.Rule("instrumented build (ctinstr: block, short-circuit and index events in utils, sm2, sm2/internal, fiat). rapid draws a primitive and a 32-byte secret from {uniform; 0,1,n-2..n+1, p, 2^255, 2^256-1; 1..31 leading 00 bytes; 1..31 leading FF bytes; bit runs; one bit; extreme bytes; exactly one comb window set}: P1 ScalarBaseMult(k); P2 ScalarMult(P,k) for fixed public P in {G,[m]G}, also with 16-, 33-, 40- and 64-byte scalars of the same shapes (length is public, value is not); P3 field and scalar Invert(x); P4 MultiSelectXY/XYZ, fiat MultiSelect, Select (secret = selector); P5 TestPrivateKey(d), ConstantTimeCmp(a,b,32) (secret = both); P6 Bytes()/GetAffineX() of [k]G in a secret projective representative, and of a fixed point whose Z is the secret given by its raw Montgomery limbs; P7 (1+d)^-1 as the signer computes it (scalar SetBytes + Invert). Oracle: executions are grouped by (primitive, public parameters, verdict); every execution's block-sequence hash+count, (site,index)-sequence hash+count and executed external-callee set must equal the group's first one; and the callee set of a primitive contains no math/big arithmetic, no bytes/strings call, no string/array comparison. On mismatch both secrets are re-run with full logs and the first diverging event is reported with file:line. Non-trivial: a secret that is not plain uniform compared against a different secret; distinct by (primitive, secret).")
 	t.Cleanup(stats.FlushAll)
 	if !c08LoadSites(t) {
 		rec.Skipped("ctrace_sites.json not found: the instrumenter did not run; nothing judged")
@@ -285,6 +311,19 @@ func TestVerif_C08_Primitives(t *testing.T) {
 			ctrace.Restart()
 			pt.GetAffineX()
 			return fmt.Sprint(inf)
+		}},
+		// the SECRET is the projective Z itself, given by its raw (Montgomery) limbs: a fixed public point in the representative
+		// (x*Z : y*Z : Z). Word-level shortcuts on Z (first non-zero limb, low limb only, ...) show for limbs that scalars cannot steer
+		{"P6:GetAffineX(raw-Z)", func(z []byte) string {
+			pt := c08RawPoint(z)
+			ctrace.Restart()
+			pt.GetAffineX()
+			return ""
+		}},
+		{"P6:Bytes(raw-Z)", func(z []byte) string {
+			pt := c08RawPoint(z)
+			ctrace.Restart()
+			return fmt.Sprint(len(pt.Bytes()))
 		}},
 		{"P7:(1+d)^-1", func(d []byte) string {
 			// as SignHashed does: d1 = 1+d left-padded to 32 bytes, SetBytes, Invert. Valid keys only (d in [1,n-2]).
